@@ -470,7 +470,8 @@ func class(code int) string {
 //	mutes i now <ls>                          -> <0|1> <silencedBy sorted>
 //	imutes i now <ls> <pt>~<op>~<args…> …     -> <0|1> <silencedBy sorted> <pt>~<obs…>|<pt>~- …
 //	      Mutes with store operations interleaved: <pt> is q1 / q2 (start of the first / second
-//	      Silences.Query of this call) or w (between the last query and the cache write); the op is
+//	      Silences.Query of this call), e1 / e2 (that query has returned) or w (between the last
+//	      query and the cache write, only when some silence was found); the op is
 //	      a common store op (set, expire, merge, gc) with '~' for ' '; "<pt>~-" = point not reached
 //	postgc i <ls;ls…>                         -> ok
 func (w *World) Exec(line string) string {
